@@ -219,3 +219,15 @@ package types
 //@ ensures [C19] withdraw_address_keys_are_bech32_addresses_as_exported: err == NoErr ==> (forall k Str :: {mapHas_Map_Str_Bytes(data.WithdrawAddresses, k)} mapHas_Map_Str_Bytes(data.WithdrawAddresses, k) ==> bech32Err(k) == NoErr)
 //@ ensures [C19] contexts_are_paused_with_hex_ids: err == NoErr ==> (forall k Str :: {mapHas_Map_Str_RequestContext(data.RequestContexts, k)} mapHas_Map_Str_RequestContext(data.RequestContexts, k) ==> hexErr(k) == NoErr &&
 //@      mapGet_Map_Str_RequestContext(data.RequestContexts, k).State == 1 && mapGet_Map_Str_RequestContext(data.RequestContexts, k).BatchState == 1)
+
+//@ func SplitRequestContextID
+//@ props C18
+//@ theory coins keys bytes bat
+//@ ensures [C18] fixed_length: (err == NoErr) <==> len(contextID) == 40
+//@ ensures [C18] decodes_hash_and_index: err == NoErr ==> result0 == cidHash(contextID) && result1 == cidIndex(contextID)
+
+//@ func SplitRequestID
+//@ props C18
+//@ theory coins keys bytes bat
+//@ ensures [C18] fixed_length: (err == NoErr) <==> len(requestID) == 58
+//@ ensures [C18] decodes_context_batch_height_index: err == NoErr ==> result0 == ridCtx(requestID) && result1 == ridBatch(requestID) && result2 == ridHeight(requestID) && result3 == ridIndex(requestID)
